@@ -112,6 +112,24 @@ def fault_cycle(root, wd, prog, sem, name, fault_key, slow_key, ref_outs, cores=
     return res, ""
 
 
+def zip_outs(psdir):
+    """the top-level outputs of a pipestance whose metadata may be in _metadata.zip"""
+    import zipfile
+    for d in sorted(os.listdir(psdir)):
+        f = os.path.join(psdir, d, "fork0", "_outs")
+        if os.path.isfile(f) and not d.startswith("_") and d not in ("journal", "tmp", "outs"):
+            return json.loads(open(f).read().replace(psdir, "$PS"))
+    z = os.path.join(psdir, "_metadata.zip")
+    if os.path.exists(z):
+        with zipfile.ZipFile(z) as zf:
+            for n in sorted(zf.namelist()):
+                parts = n.split("/")
+                if parts[-2:] == ["fork0", "_outs"] and len(parts) <= 4 and not parts[-3].startswith("_"):
+                    if len([x for x in parts if x]) == 3 or parts[0] == "":
+                        return json.loads(zf.read(n).decode().replace(psdir, "$PS"))
+    return None
+
+
 def records(res, sem, ref_outs):
     """PsTrace records of one crash/restart cycle."""
     out = [psprops.rec(ev="RunBegin", run=res["name"], jobs=psprops.expected_jobs(sem),
@@ -331,6 +349,40 @@ def run(tier, replay=None):
                           "what": "C05 program %s: fork %s failed (the job succeeds when run again) while %s was still unfinished, mrp was killed right after reading the failure; the restarted mrp ended with status %s, outputs %s, reference %s; %s" % (
                               pname, fkey, skey or "the earlier fork", r["rc2"], json.dumps(r["outs"])[:120], json.dumps(r["ref"])[:120], r["mrp_out"].replace("\n", " ")[-300:]),
                           "replay": {"program.mro": r["mro"], "report.json": json.dumps({k_: v_ for k_, v_ in r.items() if k_ != "mro"})}})
+    # mrp --zip archives the metadata of a completed pipestance; mrp stopped after that (or simply
+    # started again with the same invocation) finds the archive instead of the files
+    zip_report = []
+    for pname in ("map_keys", "map_dyn2", "split2", "subpipe", "map_dynkeys_split"):
+        q = next((x for x in shapes.catalogue() if x["name"] == pname), None)
+        if q is None:
+            continue
+        qsem, _ = psrun.semantics([q])
+        c = procdrv.Cycle(root, os.path.join(base, "zip_" + pname), q, qsem[pname], pname + "#zip", extra_args=["--zip"])
+        rc1, _ = c.run()
+        zipped = os.path.exists(os.path.join(c.psdir, "_metadata.zip"))
+        rc2, _ = c.run(timeout=60)
+        outs2 = zip_outs(c.psdir)
+        if pname not in refs:
+            c0 = procdrv.Cycle(root, os.path.join(base, "ref3_" + pname), q, qsem[pname], pname)
+            c0.run()
+            refs[pname] = (0, c0.top_outs(), [], None)
+            c0.cleanup()
+        ref = refs[pname][1]
+        tail = ""
+        try:
+            tail = open(os.path.join(c.wd, "mrp.out"), errors="replace").read()[-600:].replace("\n", " ")
+        except OSError:
+            pass
+        zip_report.append({"program": pname, "first_exit": rc1, "archived": zipped, "second_exit": rc2, "outputs_equal": outs2 == ref})
+        if rc1 != 0 or not zipped:
+            c.cleanup()
+            raise vlib.Infra("the --zip run of %s did not complete and archive (rc=%s): %s" % (pname, rc1, tail))
+        if rc2 != 0 or outs2 != ref:
+            viols.append({"prop": "C05", "key": "C05:%s:restart-of-archived-pipestance" % pname,
+                          "what": "C05 program %s run with --zip: mrp completed and archived the metadata; started again on the same directory it ended with status %s, outputs %s, reference %s; %s" % (
+                              pname, rc2, json.dumps(outs2)[:150], json.dumps(ref)[:150], tail),
+                          "replay": {"program.mro": c.mro}})
+        c.cleanup()
     mine = [v for v in viols if v["prop"] == "C05"]
     others = sorted({v["prop"] for v in viols if v["prop"] != "C05"})
     if others:
@@ -343,6 +395,7 @@ def run(tier, replay=None):
         "states": mstates + tlc.distinct, "transitions": mtrans + tlc.generated,
         "traces_validated_against_impl": len(cases),
         "join_inputs_compared_with_uninterrupted_run": ncdefs,
+        "restarts_of_archived_pipestances": zip_report,
         "samples": [{"program": cases[0][0]["name"], "effect": cases[0][1], "signal": cases[0][2],
                      "exit_status": [str(results[0]["rc1"]), str(results[0]["rc2"])],
                      "events_before_crash": results[0]["n1"]}] if cases else [],
